@@ -194,10 +194,13 @@ def run(case, ctx):
     os.environ['TMPDIR'] = systmp
     saved_tempdir = tempfile.tempdir
     tempfile.tempdir = systmp
+    from tdda.referencetest.referencetest import ReferenceTest
+    ReferenceTest.regenerate = {}
     try:
         return run_in(case, ctx, d, tmp, refdir, cwd, actdir, systmp, out)
     finally:
         tempfile.tempdir = saved_tempdir
+        ReferenceTest.regenerate = {}
 
 
 def run_in(case, ctx, d, tmp, refdir, cwd, actdir, systmp, out):
@@ -234,6 +237,15 @@ def run_in(case, ctx, d, tmp, refdir, cwd, actdir, systmp, out):
         rt = ReferenceTest(rec)
         rt.files.tmp_dir = tmp
     rt.files.verbose = False
+    akw = {}
+    size = len(case['bin'][1]) if binary else len(case['act'])
+    if size % 3 == 0:
+        # regeneration was switched on for every kind and then off again
+        # for the kind these results are of: they are checked, not written
+        ReferenceTest.set_regeneration()
+        ReferenceTest.set_regeneration('results', regenerate=False)
+        akw = {'kind': 'results'}
+        out.label('regeneration-on-for-all-off-for-this-kind')
     ref_path = os.path.join(refdir, 'result.bin' if binary else 'result.txt')
     act_path = os.path.join(actdir, 'result.bin' if binary else 'result.txt')
     if binary:
@@ -302,10 +314,10 @@ def run_in(case, ctx, d, tmp, refdir, cwd, actdir, systmp, out):
                 f.write(text_)
         if entry == 'assertStringCorrect':
             call(rt.assertStringCorrect, old_act, ref_path,
-                 **c04.kwargs_for(o))
+                 **c04.kwargs_for(o), **akw)
         else:
             call(rt.assertTextFileCorrect, act_path, ref_path,
-                 **c04.kwargs_for(o))
+                 **c04.kwargs_for(o), **akw)
         if rec.failed:
             out.label('after-earlier-longer-failure')
         rec.calls = []
@@ -318,10 +330,10 @@ def run_in(case, ctx, d, tmp, refdir, cwd, actdir, systmp, out):
             f.write(act_text)
     before = {k: snapshot(v) for (k, v) in dirs.items()}
     if binary:
-        ok, r = call(rt.assertBinaryFileCorrect, act_path, ref_path)
+        ok, r = call(rt.assertBinaryFileCorrect, act_path, ref_path, **akw)
     elif entry == 'assertStringCorrect':
         ok, r = call(rt.assertStringCorrect, act_text, ref_path,
-                     **c04.kwargs_for(o))
+                     **c04.kwargs_for(o), **akw)
     elif entry == 'assertTextFilesCorrect' and not case['ref_missing']:
         # the pair under test comes second; the first pair agrees modulo an
         # excused line (when an ignore-substring is in force), so whatever
@@ -329,12 +341,12 @@ def run_in(case, ctx, d, tmp, refdir, cwd, actdir, systmp, out):
         ok, r = call(rt.assertTextFilesCorrect, [pre_act, act_path]
                      + ([later[0]] if later else []),
                      [pre_ref, ref_path] + ([later[1]] if later else []),
-                     **c04.kwargs_for(o))
+                     **c04.kwargs_for(o), **akw)
         if later:
             out.label('a-later-pair-fails-too')
     else:
         ok, r = call(rt.assertTextFileCorrect, act_path, ref_path,
-                     **c04.kwargs_for(o))
+                     **c04.kwargs_for(o), **akw)
     after = {k: snapshot(v) for (k, v) in dirs.items()}
     if not ok:
         out.violate('never-raises', r.bucket(), '%s: %s' % (entry,
